@@ -427,6 +427,17 @@ func (m *Machine) Draw(t *rapid.T, g *GenOpts) Action {
 			a.Power = int64(rapid.IntRange(1, 600).Draw(t, "powr"))
 		}
 		a.Factor = rapid.SampledFrom([]string{"0", "0.000000000000000001", "0.01", "0.05", "0.5", "1", "0.333333333333333333"}).Draw(t, "factor")
+	case "evidence":
+		a.Dt = rapid.IntRange(1, maxDt).Draw(t, "dt")
+		a.Key = uniform(t, len(m.Keys), "key")
+		if pct(t, 80, "genesiskey?") {
+			a.Key = uniform(t, len(m.W.ConsKeys), "gkey")
+		}
+		a.Back = int64(rapid.IntRange(1, 12).Draw(t, "back"))
+		a.Power = int64(rapid.IntRange(1, 300).Draw(t, "pow"))
+		if g.Anchor && a.Key == 0 && len(m.Keys) > 1 {
+			a.Key = 1 + uniform(t, len(m.Keys)-1, "anchor-key")
+		}
 	case "jail", "unjail":
 		a.Dt = rapid.IntRange(1, maxDt).Draw(t, "dt")
 		a.Key = rapid.IntRange(0, len(m.Keys)-1).Draw(t, "key")
